@@ -18,8 +18,8 @@ from .. import build, core
 from ..runner import NCPU, VERIF
 
 KNOWN_FILE = os.path.join(VERIF, "known", "c11_findings.json")
-CRATE = os.path.join(VERIF, "harness", "strmon")
-MIRI_ENV = {"CARGO_TARGET_DIR": os.path.join(VERIF, ".targets", "strmon-miri"), "MIRIFLAGS": "-Zmiri-tree-borrows",
+CRATE = build.crate_dir("strmon")
+MIRI_ENV = {"CARGO_TARGET_DIR": build.target_dir_for("strmon", "miri"), "MIRIFLAGS": "-Zmiri-tree-borrows",
             "CARGO_NET_OFFLINE": "true"}
 MIRI_CMD = ["cargo", "+nightly", "miri", "run", "--offline", "-q", "--"]
 ASAN_ENV = {"ASAN_OPTIONS": "halt_on_error=1:detect_leaks=1:exitcode=66"}
@@ -261,7 +261,7 @@ def run(tier, seed):
     known_miri = replay_known(chk, native, avoid, miri_ok)
     miri_runs = 0
     if miri_ok:
-        nm = (96 if thorough else 16) - len(known_miri)
+        nm = (96 if thorough else 8) - len(known_miri)
         thin = 79 if not thorough else 52  # 157 strings of length <= 2 over the alphabet, distinct shards per process
         mtasks = []
         for s in range(nm):
